@@ -25,6 +25,7 @@ type nullTransport struct {
 	streamCh chan net.Conn
 	mu       sync.Mutex
 	sent     [][]byte
+	sentTo   []string
 	dialer   func(addr string) (net.Conn, error)
 }
 
@@ -37,6 +38,7 @@ func (t *nullTransport) FinalAdvertiseAddr(ip string, port int) (net.IP, int, er
 func (t *nullTransport) WriteTo(b []byte, addr string) (time.Time, error) {
 	t.mu.Lock()
 	t.sent = append(t.sent, append([]byte(nil), b...))
+	t.sentTo = append(t.sentTo, addr)
 	t.mu.Unlock()
 	return time.Now(), nil
 }
